@@ -740,11 +740,11 @@ def d9_details(chk, repo, v, r):
     tbl = _dict_literal(v, ["bin4", "bin8"])
     chk.require(tbl is not None, "_to_ovf: binary table vanished")
     want_bin = v.spec(f"representation in {tbl[1]}", at=packs[0][1])
-    chk.ob("io.ovf._to_ovf::binary-block-iff-binary-representation", cond_equiv(v, path_term(v, packs[0][1]), want_bin), "C09.D9",
+    chk.ob("io.ovf._to_ovf::binary-block-iff-binary-representation", reached_iff(v, packs[0][1], want_bin), "C09.D9",
            f"the check value is written under {v.show(path_term(v, packs[0][1]))[:120]}; expected: representation is bin4 or bin8",
            v.f, packs[0][1])
     chk.ob("io.ovf._to_ovf::text-block-iff-text-representation",
-           cond_equiv(v, path_term(v, csvs[0][1]), v.ev._not(want_bin)), "C09.D9",
+           reached_iff(v, csvs[0][1], v.ev._not(want_bin)), "C09.D9",
            f"text rows are written under {v.show(path_term(v, csvs[0][1]))[:120]}; expected: representation is not a binary one",
            v.f, csvs[0][1])
     # ---- writer: scalar extended to three components
@@ -771,8 +771,8 @@ def d9_details(chk, repo, v, r):
         if not is_const(v.ctx, c_[2].get("loc", v.ctx.const(-9)), 0):
             pt = path_term(v, st)
             chk.ob(f"io.ovf._to_ovf::text-extension-iff-extended@{v.show(c_[2].get('loc'))}",
-                   cond_implies(v, pt, v.spec("extend_scalar and self.nvdim == 1")) and
-                   cond_implies(v, v.ev._bool("and", [v.spec("extend_scalar and self.nvdim == 1"), v.ev._not(want_bin)]), pt),
+                   reached_implies(v, st, v.spec("extend_scalar and self.nvdim == 1")) and
+                   implies_reached(v, v.ev._bool("and", [v.spec("extend_scalar and self.nvdim == 1"), v.ev._not(want_bin)]), st),
                    "C09.D9", f"zero column inserted under {v.show(pt)[:140]}", v.f, st)
     call, st, c_ = csvs[0]
     okc = is_str(v.ctx, c_[2].get("sep", v.ctx.const(0)), " ") and is_const(v.ctx, c_[2].get("header", v.ctx.const(0)), False) and \
@@ -787,9 +787,9 @@ def d9_details(chk, repo, v, r):
     rc = _calls_named(r, "pandas.read_csv") or _calls_named(r, "pd.read_csv")
     chk.require(ff and rc, "_from_ovf: np.fromfile / read_csv vanished")
     is_bin = r.spec(f"{mode_name} == 'binary'", at=ff[0][1])
-    chk.ob("io.ovf._from_ovf::binary-read-iff-binary-file", cond_equiv(r, path_term(r, ff[0][1]), is_bin), "C09.D9",
+    chk.ob("io.ovf._from_ovf::binary-read-iff-binary-file", reached_iff(r, ff[0][1], is_bin), "C09.D9",
            f"np.fromfile runs under {r.show(path_term(r, ff[0][1]))[:140]}; expected: the data line says Binary", r.f, ff[0][1])
-    chk.ob("io.ovf._from_ovf::text-read-iff-text-file", cond_equiv(r, path_term(r, rc[0][1]), r.ev._not(is_bin)), "C09.D9",
+    chk.ob("io.ovf._from_ovf::text-read-iff-text-file", reached_iff(r, rc[0][1], r.ev._not(is_bin)), "C09.D9",
            f"read_csv runs under {r.show(path_term(r, rc[0][1]))[:140]}; expected: the data line does not say Binary", r.f, rc[0][1])
     nb = roles["nbytes"][0]
     par = r.cfg.parent.get(id(nb))
@@ -844,7 +844,7 @@ def d9_details(chk, repo, v, r):
                     hs = r.ctx.head_of(src_) if src_ is not None else None
                     okh = line_ok and r.eq(idx, r.spec("P[0].strip()", env={"P": parts})) and \
                         r.eq(val, r.spec("P[1].strip()", env={"P": parts})) and \
-                        cond_equiv(r, path_term(r, st), r.spec("len(P) > 1", env={"P": parts}), [r.spec("len(P)", env={"P": parts})]) \
+                        reached_iff(r, st, r.spec("len(P) > 1", env={"P": parts}), [r.spec("len(P)", env={"P": parts})]) \
                         and bool(hs and hs[0] == "sub" and r.eq(src_, r.spec("L[1:]", env={"L": r.ctx.args_of(src_)[0]})))
     chk.ob("io.ovf._from_ovf::header-lines", okh, "C09.D9",
            "a header line '# key: value' must be stored as key = text before the first colon (without the leading #), value = "
@@ -876,7 +876,7 @@ def d9_details(chk, repo, v, r):
     oklab = False
     for st in lab:
         L = local_term(r, st.targets[0].id, r.cfg.parent[id(st)][0])
-        oklab = cond_equiv(r, path_term(r, st), r.spec("len(L) != len(set(L))", env={"L": L}))
+        oklab = reached_iff(r, st, r.spec("len(L) != len(set(L))", env={"L": L}))
     chk.ob("io.ovf._from_ovf::duplicate-labels-dropped", oklab, "C09.D9",
            "labels must be discarded exactly when they are not unique", r.f, lab[0] if lab else None)
     ul = find_assign(r, lambda t_, s_: (decode_call(r.ctx, t_) or ("",))[0] == ".split" and
@@ -887,7 +887,7 @@ def d9_details(chk, repo, v, r):
         nS = r.spec("len(set(U))", env={"U": U})
         takes = [st for st in r.stmts() if isinstance(st, ast.Assign) and isinstance(st.targets[0], ast.Name)
                  and r.eq(r.term(st.value, at=st), r.spec("U[0]", env={"U": U}))]
-        oku = len(takes) == 1 and cond_equiv(r, path_term(r, takes[0]), r.spec("len(U) != 0 and len(set(U)) == 1", env={"U": U}), [nU, nS])
+        oku = len(takes) == 1 and reached_iff(r, takes[0], r.spec("len(U) != 0 and len(set(U)) == 1", env={"U": U}), [nU, nS])
         chk.ob("io.ovf._from_ovf::unit-is-the-single-repeated-unit", oku, "C09.D9",
                f"the unit is taken from the file under {r.show(path_term(r, takes[0]))[:200] if takes else '?'}; expected: the unit "
                "list is non-empty and all its entries agree (then its first entry)", r.f, takes[0] if takes else None)
